@@ -61,7 +61,7 @@ PathForbidden ==
     \E i \in 1..Len(H.path) : H.path[i].how = "attr" /\ Forbidden(H.path[i].k, H.path[i].a)
 
 (* kinds on which obj[name] can succeed, so that a value may arrive without a gate *)
-SubscriptKinds == {"dict", "list", "deque", "str", "other", "plain"}
+SubscriptKinds == {"dict", "list", "deque", "str", "other"}
 
 TrInit ==
     /\ tid \in 1..Len(Traces)
